@@ -297,11 +297,24 @@ impl Prop for C11 {
             _ => 10 + rng.usize(30),
         };
         let n_init = rng.usize(5);
-        let case = Case {
-            entropy: rng.next_u64(),
-            init: (0..n_init).map(|_| (rng.pick(&NAMES).to_string(), rng.pick(&VALUES).to_string())).collect(),
-            ops: (0..n).map(|_| gen_op(rng)).collect(),
-        };
+        let mut init: Vec<(String, String)> = (0..n_init).map(|_| (rng.pick(&NAMES).to_string(), rng.pick(&VALUES).to_string())).collect();
+        let mut ops: Vec<Op> = (0..n).map(|_| gen_op(rng)).collect();
+        if rng.chance(1, 20) {
+            // big mode: more than 16 variables, a long value, a stack deeper than 5 with long copy lists
+            for k in 0..17 + rng.usize(10) {
+                init.push((format!("w{}", k), format!("val{}", k)));
+            }
+            init.push(("longv".to_string(), "abcdefghij".repeat(8)));
+            let copy: Vec<String> = (0..12).map(|k| format!("w{}", k)).collect();
+            let depth = 6 + rng.usize(4);
+            let mut pre: Vec<Op> = (0..depth).map(|_| Op::Push(Some(copy.clone()))).collect();
+            pre.extend(ops.drain(..));
+            for _ in 0..depth {
+                pre.push(Op::Pop(Some(vec!["w3".to_string(), "longv".to_string(), "a".to_string()])));
+            }
+            ops = pre;
+        }
+        let case = Case { entropy: rng.next_u64(), init, ops };
         serde_json::to_value(case).unwrap()
     }
     fn execute(&self, case: &Value, _env: &WorkerEnv) -> Outcome {
